@@ -28,7 +28,8 @@ def make_opcode_variable_list() -> list[tuple[str, int, Callable[..., Any], Call
             try:
                 size = struct.unpack(struct_data, script[pc : pc + struct_size])[0]
             except Exception:
-                return 0, pc
+                # the length bytes themselves are cut short: a malformed push
+                return -1, pc
             pc += struct_size
             return size, pc
 
